@@ -115,6 +115,7 @@ type Engine struct {
 	Cfg    Config
 
 	infoMu sync.Mutex
+	globUse map[*ssa.Function]int8
 	infos  map[*ssa.Function]*fnInfo
 
 	mu      sync.Mutex
@@ -146,6 +147,8 @@ type Worker struct {
 	res      *Results // worker-local counters merged at the end
 	coverSeen map[string]bool
 	lastTrace []Decision
+	initFailed map[string]bool
+	interned  map[string]*Value
 }
 
 // engine-level control flow (Go panics of these types unwind the interpreter)
